@@ -2073,7 +2073,9 @@ def havoc(it, v, name='carry'):
     if is_scalar(v):
         return fresh_const(it, name, SORTS[dtype_of(v)])
     if is_key(v):
-        return fresh_const(it, name, Key)
+        k = fresh_const(it, name, Key)
+        it.run.__dict__.setdefault('jx_carried_keys', []).append(k)      # a loop-carried PRNG key
+        return k
     if isinstance(v, Obj) and not isinstance(v.cls, ClassInfo):
         o = Obj(v.cls, dict(v.attrs))
         o.attrs['_version'] = fresh_const(it, name + '_version', z3.IntSort())
